@@ -7,7 +7,8 @@
 (*    for a verb this server does not have, "XRM" = the harness removed    *)
 (*    file a[1] behind the server's back), reps = class / first-line text /*)
 (*    multi-line payload of each reply, after = the maildir afterwards,    *)
-(*    root = 1 when the server was started as uid 0, rc = exit status.     *)
+(*    root = 1 when the server was started as uid 0, rc = exit status,     *)
+(*    tail = number of bytes the server sent that answer no command.       *)
 (*  k = "p": qmail-popup host checker.  greet = text of the greeting,      *)
 (*    invs[i] = what checker invocations during command i read on          *)
 (*    descriptor 3, ex = scripted behaviour of the checker.                *)
@@ -27,10 +28,11 @@ Next == \/ g = 0 /\ g' \in 1..G /\ k' = 0
 Spec == Init /\ [][Next]_<<g, k>>
 
 Verdict(r) ==
-  IF r.k = "p" THEN PopupVerdict(r.cmds, r.reps, r.invs, r.ex, r.host, r.greetc, r.greet)
-  ELSE IF r.root = 1 THEN RootVerdict(r.files, r.greet, r.reps, r.after, r.rc)
-  ELSE IF r.greet # "ok" THEN <<"NoGreeting", 0>>
-  ELSE SessionVerdict(r.files, r.cmds, r.reps, r.after)
+  LET v == IF r.k = "p" THEN PopupVerdict(r.cmds, r.reps, r.invs, r.ex, r.host, r.greetc, r.greet)
+           ELSE IF r.root = 1 THEN RootVerdict(r.files, r.greet, r.reps, r.after, r.rc)
+           ELSE IF r.greet # "ok" THEN <<"NoGreeting", 0>>
+           ELSE SessionVerdict(r.files, r.cmds, r.reps, r.after)
+  IN IF v[1] = "" /\ r.tail # 0 THEN <<"UnsolicitedOutput", 0>> ELSE v       \* tail = bytes sent that answer no command
 CheckChunk(c) ==
   LET lo == (c - 1) * Chunk + 1
       hi == IF c * Chunk < NR THEN c * Chunk ELSE NR
